@@ -235,7 +235,7 @@ QTYPE = "state * list (qry * qres)"
 
 
 # ---- random multigraph builders -------------------------------------------------------------
-def gen_graph_ops(rng, nv=None, nl=None, odd=0.25, universes=True):
+def gen_graph_ops(rng, nv=None, nl=None, odd=0.25, universes=True, shared=0.3):
     """ops building a small mixed multigraph: self-loops, parallel and mixed-class edges, some None ends /
     third members (probability `odd`), optionally a universe holding a subset of the vertices."""
     nv = nv if nv is not None else rng.randint(1, 5)
@@ -245,7 +245,7 @@ def gen_graph_ops(rng, nv=None, nl=None, odd=0.25, universes=True):
         ops.append(["NL", None, None])           # shifts id parity
     vids = []
     nid = len(ops)
-    shared_uid = rng.random() < 0.3
+    shared_uid = rng.random() < shared      # several vertices carry the same caller-supplied uid (never checked by the library)
     for _ in range(nv):
         op = ["NV", rng.choice(H.NV_CLASSES), [], []]
         if shared_uid and rng.random() < 0.6:
